@@ -867,3 +867,65 @@ Example example_all_gone : exists s,
   pexec false [] (firstn 2 refute_ops) = Val s /\
   gget (spec_pexec [] (firstn 2 refute_ops)) (fname Net) = [] :: [[(bs "eth0", [0; 100; 0; 0; 0; 0; 0; 0])]].
 Proof. eexists. vm_compute. split; reflexivity. Qed.
+
+(* ------------------------------------------------------------ public functions: clear forgets *)
+Lemma spec_pexec_app : forall a b g, spec_pexec g (a ++ b) = spec_pexec (spec_pexec g a) b.
+Proof. induction a as [|o a IH]; intros b g; cbn [app spec_pexec]; [reflexivity | apply IH]. Qed.
+
+Lemma fname_inj f f' : beqb (fname f') (fname f) = fn_eqb f' f.
+Proof. destruct f, f'; vm_compute; reflexivity. Qed.
+
+Lemma no_feed_keeps_empty f : forall mid g, gget g (fname f) = [] -> no_feed f mid = true ->
+  gget (spec_pexec g mid) (fname f) = [].
+Proof.
+  unfold no_feed. induction mid as [|o mid IH]; intros g Hg H; cbn [spec_pexec]; [exact Hg|].
+  cbn [forallb] in H. apply andb_true_iff in H as [Ho H]. apply IH; [|exact H].
+  apply negb_true_iff in Ho. destruct o as [f' per nowrap raw|f']; cbn [feeds spec_pstep] in *.
+  - destruct nowrap; cbn [fst andb] in *; [|exact Hg]. rewrite gget_dset, fname_inj, Ho. exact Hg.
+  - cbn [fst]. rewrite gget_dremove. destruct (beqb (fname f') (fname f)); [reflexivity | exact Hg].
+Qed.
+
+(* after f.cache_clear(), with any calls in between that do not feed f's history (nowrap=False
+   calls, the other function, further clears), the next nowrap=True answer is the raw listing *)
+Theorem public_clear_forgets ops mid f per raw s s' a :
+  forallb pop_ok (ops ++ PClear f :: mid) = true -> no_feed f mid = true ->
+  dict_ok (width f) raw = true ->
+  pexec false [] (ops ++ PClear f :: mid) = Val s -> pstep false s (PCall f per true raw) = Val (s', a) ->
+  a = present f per raw.
+Proof.
+  intros Hok Hnf Hd E R.
+  rewrite (public_answer_after _ s f per raw s' a Hok Hd E R). f_equal.
+  rewrite spec_pexec_app. cbn [spec_pexec spec_pstep fst].
+  rewrite no_feed_keeps_empty; [apply spec_dict_nil | | exact Hnf].
+  rewrite gget_dremove, beqb_refl. reflexivity.
+Qed.
+
+(* ------------------------------------------------------------ cache_info() shows the ghost state *)
+Lemma lookup_map_snd {A B} (F : A -> B) f (s : list (bytes * A)) :
+  lookup f (map (fun fw => (fst fw, F (snd fw))) s) = match lookup f s with Some w => Some (F w) | None => None end.
+Proof.
+  induction s as [|[f0 w0] s IH]; cbn [map lookup fst snd]; [reflexivity|].
+  destruct (beqb f f0); [reflexivity | exact IH].
+Qed.
+
+Theorem cache_info_shows_ghost W ops s f :
+  forallb (wop_ok W) ops = true -> wexec [] ops = Val s ->
+  let c := fst (fst (cache_info s)) in let r := snd (fst (cache_info s)) in let rk := snd (cache_info s) in
+  let h := gget (spec_wexec [] ops) f in
+  match h with
+  | [] => lookup f c = None /\ lookup f r = None /\ lookup f rk = None
+  | d :: _ => exists rm rkm,
+      lookup f c = Some d /\ lookup f r = Some rm /\ lookup f rk = Some rkm /\
+      (forall k i, rem_get rm (k, i) = spec_offset k i h) /\
+      (forall k i, rem_get rm (k, i) <> 0 -> In i (rk_get rkm k)) /\
+      (forall k i, In i (rk_get rkm k) -> rem_mem rm (k, i) = true)
+  end.
+Proof.
+  intros Hok E. destruct (wexec_refines W ops [] [] (Inv_init W) Hok) as [s0 [E0 HI]].
+  rewrite E in E0. inversion E0; subst s0. clear E0.
+  cbn zeta. unfold cache_info. cbn [fst snd]. rewrite !lookup_map_snd.
+  destruct (HI f) as [_ Hf]. destruct (lookup f s) as [w|].
+  - destruct Hf as [h' [Eh [[Ha [Hb Hc]] Hacc]]]. rewrite Eh. exists (w_rem w), (w_rk w).
+    repeat split; auto. intros k i. rewrite Hacc, Eh. reflexivity.
+  - rewrite Hf. repeat split; reflexivity.
+Qed.
